@@ -24,6 +24,8 @@ struct Codec {
     extra: Box<dyn Fn(&[u8]) -> bool>,
     /// serialisation of raw bytes through the type's own constructor, when it has one
     from_raw: Option<Box<dyn Fn(&[u8]) -> String>>,
+    /// tokens: which footer bytes the footer type decodes (typed footers refuse some)
+    footer_ok: Box<dyn Fn(&[u8]) -> bool>,
 }
 
 fn codecs<B: Backend>() -> Vec<Codec> {
@@ -47,6 +49,7 @@ fn codecs<B: Backend>() -> Vec<Codec> {
                 }),
                 extra: Box::new($extra),
                 from_raw: $raw,
+                footer_ok: Box::new(|_: &[u8]| true),
             }
         };
     }
@@ -67,6 +70,12 @@ fn codecs<B: Backend>() -> Vec<Codec> {
         codec!("SealedKey", format!("k{v}.seal."), SealedKey<B>, false, any, None),
         codec!("EncryptedToken", format!("v{v}.local."), EncryptedToken<B, Raw, Vec<u8>>, true, any, None),
         codec!("SignedToken", format!("v{v}.public."), SignedToken<B, Raw, Vec<u8>>, true, any, None),
+        // typed footers: the token text must survive parse -> Display whatever the footer type's own
+        // canonical encoding would be
+        Codec { footer_ok: Box::new(|f: &[u8]| !f.is_empty() && serde_json::from_slice::<serde_json::Value>(f).is_ok()), ..codec!("EncryptedToken<JsonFooter>", format!("v{v}.local."), EncryptedToken<B, Raw, paseto_json::Json<serde_json::Value>>, true, any, None) },
+        Codec { footer_ok: Box::new(|f: &[u8]| !f.is_empty() && serde_json::from_slice::<serde_json::Value>(f).is_ok()), ..codec!("SignedToken<JsonFooter>", format!("v{v}.public."), SignedToken<B, Raw, paseto_json::Json<serde_json::Value>>, true, any, None) },
+        codec!("EncryptedToken<LossyFooter>", format!("v{v}.local."), EncryptedToken<B, Raw, crate::monitors::c02::LossyFooter>, true, any, None),
+        codec!("SignedToken<LossyFooter>", format!("v{v}.public."), SignedToken<B, Raw, crate::monitors::c02::LossyFooter>, true, any, None),
     ]
 }
 
@@ -85,6 +94,9 @@ fn oracle(c: &Codec, s: &str) -> Option<String> {
             None => vec![],
         };
         let _ = b;
+        if !(c.footer_ok)(&f) {
+            return None;
+        }
         // canonical form: no dot when the footer is empty
         let mut out = format!("{}{}", c.header, body);
         if !f.is_empty() {
@@ -297,9 +309,30 @@ fn backend<B: Backend>(opts: &Opts, rep: &mut Report) {
                     (format!("{h}{b}.A"), "token-dots"),
                     (format!("{h}{b}.AAA="), "token-dots"),
                 ]);
+                for t in crate::typed::noncanonical_json().into_iter().chain(["KID-7", " kid-7 ", "Kid-7\n", "[1, 2]", "\"s\"", "nul", "{\"a\":1}x"]) {
+                    cases.push((format!("{h}{b}.{}", crate::b64::encode(t.as_bytes())), "token-footer-spelling"));
+                }
             } else {
                 cases.extend([(format!("{h}{b}."), "extra-segment"), (format!("{h}{b}.AAAA"), "extra-segment"), (format!("{h}.{b}"), "extra-segment")]);
             }
+            // over-long strings whose tail is derived from the string itself (a decoder that stops at its
+            // buffer's end, or validates only the last block, is satisfied by these)
+            let n = b.len();
+            for k in 1..=8usize.min(n) {
+                cases.push((format!("{h}{b}{}", &b[n - k..]), "self-extension"));
+                cases.push((format!("{h}{b}{}", &b[..k]), "self-extension"));
+                if n >= 4 {
+                    cases.push((format!("{h}{b}{}", &b[n - 4..n - 4 + k.min(4)]), "self-extension"));
+                }
+            }
+            for filler in ["!!!!", "....", " \n\t ", "AAAA", "====", "\0\0\0\0"] {
+                cases.push((format!("{h}{b}{filler}{}", &b[n - 4..]), "self-extension"));
+                cases.push((format!("{h}{b}{filler}{}", &b[n - 4..n - 2]), "self-extension"));
+                cases.push((format!("{h}{b}{filler}"), "self-extension"));
+            }
+            cases.push((format!("{h}{b}{b}"), "self-extension"));
+            cases.push((format!("{h}{b}{h}{b}"), "self-extension"));
+            cases.push((format!("{h}{b}.{b}"), "self-extension"));
             for (s, class) in cases {
                 check(rep, c, class, &s, &mut None);
             }
@@ -376,7 +409,7 @@ pub fn run(opts: &Opts) {
     for_backends!(opts, backend, opts, &mut rep);
     rep.set(
         "rule",
-        json!("per FromStr/Display pair (KeyText x5, KeyId x3, PieWrappedKey x2, PasswordWrappedKey x2, SealedKey, EncryptedToken, SignedToken) and backend: all 64^2 + 64^3 final blocks over the base64url alphabet (exhaustive on KeyText<Local>, KeyId<Local> and one token type in quick, on every type in thorough; sampled otherwise), all one-character tails, every position x every byte 0..0x7f and multibyte UTF-8, every prefix length of 8 blocks, padding / '+' '/' / whitespace / extra segments / header variants, tokens with 0..3 dots, every byte string of length 0..300 through from_raw_bytes, random hostile strings; acceptance must equal the independent strict codec's verdict, accepted strings must re-serialise identically (tokens: modulo one trailing dot), serde form must equal Display; distinct = distinct (type, string). Inputs are valid UTF-8 only (FromStr takes &str)"),
+        json!("per FromStr/Display pair (KeyText x5, KeyId x3, PieWrappedKey x2, PasswordWrappedKey x2, SealedKey, EncryptedToken, SignedToken) and backend: all 64^2 + 64^3 final blocks over the base64url alphabet (exhaustive on KeyText<Local>, KeyId<Local> and one token type in quick, on every type in thorough; sampled otherwise), all one-character tails, every position x every byte 0..0x7f and multibyte UTF-8, every prefix length of 8 blocks, padding / '+' '/' / whitespace / extra segments / header variants, tokens with 0..3 dots, tokens of typed footer types (Json<Value>, a lossy footer type) whose footer is spelled non-canonically, over-long strings whose tail repeats parts of the string itself, every byte string of length 0..300 through from_raw_bytes, random hostile strings; acceptance must equal the independent strict codec's verdict, accepted strings must re-serialise identically (tokens: modulo one trailing dot), serde form must equal Display; distinct = distinct (type, string). Inputs are valid UTF-8 only (FromStr takes &str)"),
     );
     rep.finish(opts);
 }
